@@ -74,8 +74,8 @@ func hopByHopHeaders(respHeader http.Header) map[string]struct{} {
 		"Proxy-Authorization":       {},
 		// Also see net/http/response.go "respExcludeHeader" for additional excluded headers.
 	}
-	// Fields listed in the Connection header field
-	for field := range TrimmedCSVCanonicalSeq(respHeader.Get("Connection")) {
+	// Fields listed in the Connection header field (all of its field lines)
+	for field := range TrimmedCSVCanonicalSeq(strings.Join(respHeader.Values("Connection"), ",")) {
 		m[field] = struct{}{}
 	}
 	return m
